@@ -669,9 +669,87 @@ func c17RefusedOddCreates(dotu bool) Scenario {
 	}}
 }
 
+// c17AtimeOnly: a Twstat that sets the access time and leaves the modification time
+// alone ("don't touch"), alone or together with a new length, on a file and on a fid
+// that designates a symbolic link: utimensat with UTIME_OMIT for the mtime - the file's
+// modification time is what the rest of the request made it (now, after a truncate;
+// unchanged otherwise), never a value remembered from before.
+func c17AtimeOnly(dotu bool) Scenario {
+	name := fmt.Sprintf("wstat setting atime only (mtime don't-touch), with and without a new length, file and link dotu=%v", dotu)
+	return Scenario{Name: name, Run: func(rc *RunCtx) *Result {
+		res := &Result{Exhaustive: true}
+		seen := map[string]bool{}
+		oldT := time.Unix(1000000, 0)
+		for _, target := range []string{"file", "link"} {
+			for _, length := range []int64{-1, 5, 40} {
+				base, root := scratchDir("c17t")
+				os.WriteFile(filepath.Join(root, "file"), pattern(20, 1), 0o644)
+				os.Chtimes(filepath.Join(root, "file"), oldT, oldT)
+				os.Symlink("file", filepath.Join(root, "link"))
+				var bad string
+				body := func() {
+					h := newUfsH(root, 8216, dotu)
+					cl := h.Connect()
+					ver := "9P2000"
+					if dotu {
+						ver = "9P2000.u"
+					}
+					cl.Version(8216, ver)
+					cl.Rpc(tattach(1, 0, wire.NOFID, "", uint32(os.Geteuid()), dotu))
+					cl.Rpc(twalk(2, 0, 1, target))
+					st := wire.Stat{Type: 0xFFFF, Dev: 0xFFFFFFFF, Qid: wire.Qid{Type: 0xFF, Vers: 0xFFFFFFFF, Path: ^uint64(0)}, Mode: 0xFFFFFFFF, Atime: 2000000, Mtime: 0xFFFFFFFF, Length: ^uint64(0), NUid: 0xFFFFFFFF, NGid: 0xFFFFFFFF, NMuid: 0xFFFFFFFF}
+					if length >= 0 {
+						st.Length = uint64(length)
+					}
+					r := cl.Rpc(&wire.Msg{Type: wire.Twstat, Tag: 3, Fid: 1, Stat: st})
+					res.Evals++
+					if r == nil || r.Type != wire.Rwstat {
+						if target == "link" && length >= 0 {
+							return // (a length on a link fid: outside what is compared here)
+						}
+						bad = fmt.Sprintf("Twstat{atime, length %d} on the %s answered %v", length, target, r)
+						return
+					}
+					fi, err := os.Stat(filepath.Join(root, "file"))
+					if err != nil {
+						bad = "the file is gone"
+						return
+					}
+					mt := fi.ModTime()
+					truncated := length >= 0 && length != 20
+					switch {
+					case truncated && !mt.After(oldT.Add(time.Hour)):
+						bad = fmt.Sprintf("Twstat{atime, length %d} on the %s changed the length, yet the file's modification time is still %v (what it was before the request)", length, target, mt.Unix())
+					case !truncated && length < 0 && !mt.Equal(oldT):
+						bad = fmt.Sprintf("Twstat{atime only} on the %s changed the file's modification time from %v to %v", target, oldT.Unix(), mt.Unix())
+					}
+					if at := fi.Sys().(*syscall.Stat_t).Atim; bad == "" && at.Sec != 2000000 {
+						bad = fmt.Sprintf("Twstat{atime 2000000} on the %s left the access time at %d", target, at.Sec)
+					}
+				}
+				x := vs.Run(nil, body, vs.Options{Horizon: 100000000})
+				os.RemoveAll(base)
+				if len(x.Panics) > 0 {
+					bad = "panic: " + x.Panics[0].Value
+				}
+				if bad != "" {
+					sig := "C17/atime-only/" + sigWords(bad)
+					if !seen[sig] {
+						seen[sig] = true
+						res.Findings = append(res.Findings, Finding{Sig: sig, Msg: bad})
+					}
+				}
+			}
+		}
+		res.Nontrivial = res.Evals
+		return res
+	}}
+}
+
 func c17Scenarios(tier string) []Scenario {
 	var out []Scenario
 	out = append(out, c17RefusedOddCreates(false), c17RefusedOddCreates(true))
+	out = append(out, c17AtimeOnly(false), c17AtimeOnly(true))
 	depth := 2
 	starts := []int{0}
 	if tier == "thorough" {
